@@ -232,6 +232,27 @@ def _output_streams(tree):
     csvc = h.classes["CSVOutputStream"]
     out += str_list_def("csv_open_writer", body_text(own_method(csvc, "open_writer") or _missing("CSVOutputStream.open_writer")))
     out += str_list_def("csv_close", body_text(own_method(csvc, "close") or _missing("CSVOutputStream.close")))
+    # dialect parameters of every csv writer created in this module, and how its file is opened:
+    # the decoders (and the model's "csv carries text verbatim") assume the default excel dialect
+    # (delimiter ",", quotechar '"', lineterminator "\r\n", minimal quoting) on a newline="" file
+    calls = []
+    for n in ast.walk(tree):
+        if isinstance(n, ast.Call) and ast.unparse(n.func) in ("csv.DictWriter", "csv.writer", "DictWriter", "writer"):
+            if any(k.arg is None for k in n.keywords):
+                raise PinError(f"`{ast.unparse(n)}`: **kwargs in a csv writer call")
+            calls.append((ast.unparse(n.func) + "/" + str(len(n.args)),
+                          ", ".join(f"{k.arg}={ast.unparse(k.value)}" for k in n.keywords)))
+    if not calls:
+        raise PinError("no csv.DictWriter / csv.writer call found in output_streams.py")
+    out += pair_list_def("csvWriterCalls", calls, doc="every csv writer call: (callee/positional args, keyword arguments)")
+    ow = own_method(csvc, "open_writer")
+    opens = [n for n in ast.walk(ow) if isinstance(n, ast.Call) and ast.unparse(n.func) == "open"]
+    if len(opens) != 1:
+        raise PinError("CSVOutputStream.open_writer: expected exactly one open() call")
+    out += pair_list_def("csvOpenArgs",
+                         [(f"arg{i}", ast.unparse(a)) for i, a in enumerate(opens[0].args[1:], 1)]
+                         + [(k.arg or "**", ast.unparse(k.value)) for k in opens[0].keywords],
+                         doc="mode and keyword arguments of the open() of a CSV file")
     js = h.classes["JSONOutputStream"]
     out += str_list_def("json_close", body_text(own_method(js, "close") or _missing("JSONOutputStream.close")))
     # multiplexing
